@@ -208,6 +208,8 @@ class SchemaRaises(SchemaBase):
     def check_args(self, *, arg_names: List[str], fname: str, args, kwargs) -> None:
         if not SchemaCheckSwitch().is_on():
             return
+        if self.arg_specs is None:
+            return  # no argument constraints declared
         assert isinstance(fname, str)
         # check positional args (by name)
         seen = set()
